@@ -1289,7 +1289,7 @@ def search_failing(case, res, d):
 # ----------------------------------------------------------------------------
 def run(ctx):
     tier = ctx.tier
-    ncases = 150 if tier == "quick" else 2500
+    ncases = 200 if tier == "quick" else 2500
     if ctx.replay_case:
         cases = [ctx.replay_case["detail"]["case"]]
     else:
